@@ -105,12 +105,11 @@ func (fc *FnCtx) callMods(c *ssa.CallCommon) map[string]bool {
 					}
 				}
 			}
-			for _, h := range con.Modifies {
-				if i := strings.Index(h, "@"); i >= 0 {
-					h = h[:i]
-				}
-				mods[h] = true
-			}
+			fc.confinedCallMods(con, f, c, mods)
+			return mods
+		}
+		if con := fc.e.contractFor(f); con != nil && con.HasMod && hasConfined(con.Modifies) {
+			fc.confinedCallMods(con, f, c, mods)
 			return mods
 		}
 		return fc.e.modset(f)
@@ -143,7 +142,14 @@ func (fc *FnCtx) loopSpec(l *Loop) *LoopSpec {
 	if fc.con == nil {
 		return nil
 	}
-	return fc.con.Loops[l.Ordinal]
+	ls, all := fc.con.Loops[l.Ordinal], fc.con.Loops[-1]
+	if all == nil {
+		return ls
+	}
+	if ls == nil {
+		return all
+	}
+	return &LoopSpec{Invs: append(append([]Clause{}, all.Invs...), ls.Invs...), Decs: append(append([]Clause{}, all.Decs...), ls.Decs...)}
 }
 
 // autoInvariants: monotone counters  i := e; ...; i = i + c  give  i >= e  (checked like any other invariant).
@@ -463,4 +469,25 @@ func (fc *FnCtx) resolveVar(name string, at *ssa.BasicBlock, idx int, h *HeapSta
 		return fc.val(best.v), true
 	}
 	return fc.paramLookup(name)
+}
+
+// confinedCallMods: `modifies H@p` havocs heap H at the call unless the argument bound to p is the nil literal
+// (which designates no object).
+func (fc *FnCtx) confinedCallMods(con *Contract, f *ssa.Function, c *ssa.CallCommon, mods map[string]bool) {
+	for _, h := range con.Modifies {
+		if i := strings.Index(h, "@"); i >= 0 {
+			pn := h[i+1:]
+			h = h[:i]
+			skip := false
+			for pi, p := range f.Params {
+				if (p.Name() == pn || (pn == "recv" && pi == 0)) && pi < len(c.Args) && isNilRefConst(c.Args[pi]) {
+					skip = true
+				}
+			}
+			if skip {
+				continue
+			}
+		}
+		mods[h] = true
+	}
 }
